@@ -11,7 +11,8 @@ Memory.  One heap allocation is a `Buf = List Nat` of code units held as *unsign
 every write through `wr`; both are checked, so touching anything outside the allocation is
 `.error .oob` (what ASan reports on the exact-size heap buffers of the harness).  Source and
 destination of `strcpy`/`strncpy`/`strcat`/`strncat`/`memcpy` are different allocations (C requires
-them not to overlap); `memmove` works inside one allocation with two offsets.
+them not to overlap; `memcpy1` is `memcpy` with two disjoint extents of one allocation); `memmove` works
+inside one allocation with two offsets (`memmove2`: across two allocations).
 
 Loops.  A counted loop (`while (n-- != 0)`, `counter != count`, `i < len`) recurses structurally on
 the number of iterations left.  A sentinel loop (`while (*s != 0)`) recurses on fuel; the front end
@@ -198,10 +199,18 @@ def strrchrLoop (b : Buf) (p c : Nat) : Nat → Except Err (Option Nat)
     let x ← rd b (p + l)
     if x = c then .ok (some (p + l)) else strrchrLoop b p c l
 
-/-- (`str == nullptr` is not modelled: a pointer is an index into an allocation) -/
+/-- `detail::strrchr` for a non-null `str` (a pointer is an index into an allocation) -/
 def strrchr (ct : CT) (b : Buf) (p : Nat) (ch : Int) : Except Err (Option Nat) := do
   let len ← strlen b p
   if ct.cast ch = 0 then .ok (some (p + len)) else strrchrLoop b p (ct.cast ch) len
+
+/-- `detail::strrchr` as written, with its first statement `if (str == nullptr) { return nullptr; }`: the pointer
+    argument is `none` (null) or `some (allocation, index)`.  The null case is a tetl extension — ISO C leaves
+    `strrchr(NULL, c)` undefined — so the spec has nothing to say about it (`Props.strrchr_null`). -/
+def strrchrP (ct : CT) (str : Option (Buf × Nat)) (ch : Int) : Except Err (Option Nat) :=
+  match str with
+  | none => .ok none
+  | some (b, p) => strrchr ct b p ch
 
 /-- `for (i = 0; i != n; ++i) { if (ptr[i] == ch) return ptr + i; } return nullptr;` -/
 def memchrLoop (b : Buf) (p c : Nat) : Nat → Nat → Except Err (Option Nat)
@@ -308,6 +317,26 @@ def memmove (b : Buf) (d s n : Nat) : Except Err (Nat × Buf) := do
   let r ← if s < d then memmoveBack d s n b else memmoveFwd n b d s
   .ok (d, r)
 
+/-- the backward loop of `memmove` when source and destination are different allocations -/
+def memmoveBack2 (src : Buf) (d s : Nat) : Nat → Buf → Except Err Buf
+  | 0, dst => .ok dst
+  | r + 1, dst => do
+    let c ← rd src (s + r)
+    let dst ← wr dst (d + r) c
+    memmoveBack2 src d s r dst
+
+/-- `memmove` with source and destination in two different allocations: `ps < pd` then compares unrelated
+    pointers and `back` is its (unspecified) outcome; the forward loop is the loop of `memcpy` -/
+def memmove2 (back : Bool) (dst : Buf) (d : Nat) (src : Buf) (s n : Nat) : Except Err (Nat × Buf) := do
+  let r ← if back then memmoveBack2 src d s n dst else memcpyLoop src n dst d s
+  .ok (d, r)
+
+/-- `memcpy` when both extents lie in ONE allocation (C requires them to be disjoint): the same forward loop,
+    reading from the allocation it writes to -/
+def memcpy1 (b : Buf) (d s n : Nat) : Except Err (Nat × Buf) := do
+  let r ← memmoveFwd n b d s
+  .ok (d, r)
+
 /-! ### cctype: `int` argument, result as truth value -/
 
 def isdigit (ch : Int) : Bool := decide (ch ≥ 48) && decide (ch ≤ 57)            -- '0'..'9'
@@ -391,7 +420,8 @@ def div (bits : Nat) (x y : Int) : Except Err (Int × Int) :=
   else if !inRangeS bits (Int.tdiv x y) then .error (.pre "div: quotient representable")
   else .ok (Int.tdiv x y, Int.tmod x y)
 
-/-- `abs_impl`: `if (n >= 0) return n; return n * T(-1);` — the product overflows for `MIN` -/
+/-- `etl::detail::abs_impl` (`_math/abs.hpp`, called by `labs`/`llabs`): `if (n >= 0) { return n; } return n * T(-1);`
+    — the product overflows for `MIN` -/
 def absImpl (bits : Nat) (n : Int) : Except Err Int :=
   if n ≥ 0 then .ok n
   else if !inRangeS bits (n * (-1)) then .error (.pre "abs: -n representable")
